@@ -188,6 +188,24 @@ def _count_args(n, acc):
 
 # ------------------------------------------------------------------ run the implementation
 
+def _shorthand(c, s):
+    """the module-level unicode_to_latex() (process-wide cache of encoder objects) after calls with other option values;
+    it must return / raise what an encoder object built with the same options returns / raises"""
+    from pylatexenc import latexencode as le
+    kw = {}
+    if c['prot'] != 'default': kw['replacement_latex_protection'] = c['prot']
+    for pre in c.get('pre') or []:
+        try:
+            le.unicode_to_latex('a%b \u4e7e \u00e9', unknown_char_warning=False, **dict(kw, **pre))
+        except Exception:
+            pass
+    if c['pol'] != 'default': kw['unknown_char_policy'] = c['pol']
+    try:
+        return ('ok', le.unicode_to_latex(s, unknown_char_warning=False, **kw))
+    except Exception as e:
+        return (type(e).__name__, str(e)[:60])
+
+
 def run_impl(c):
     s = c['s']
     sn = NFC(s)
@@ -223,10 +241,21 @@ def run_impl(c):
             fail = {'kind': 'valueerror-names-wrong-character', 'detail': 'first unmatched character is %r; message: %s'
                     % (unmatched[0], repr(str(exc))[:160])}
         ch = named if named is not None else (unmatched[0] if unmatched else '\0')
+        if fail is None and c.get('via') == 'shorthand' and c['table'] == 'defaults':
+            sh = _shorthand(c, s)
+            if sh[0] != 'ValueError':
+                fail = {'kind': 'shorthand-differs', 'detail': 'the encoder object raises ValueError, latexencode.unicode_to_latex(%r, policy=%r) after calls %r gives %r'
+                        % (s[:60], c['pol'], c.get('pre'), sh)}
         return {'out': 'raise ValueError %x' % ord(ch), 'fail': fail, 'sig': 'raise-ValueError'}
 
     chunks = list(res.chunks)
     text = ''.join(chunks)
+    if c.get('via') == 'shorthand' and c['table'] == 'defaults':
+        sh = _shorthand(c, s)
+        if sh != ('ok', text):
+            return {'out': 'ok ' + show_str(text) + ' | shorthand ' + repr(sh)[:80],
+                    'fail': {'kind': 'shorthand-differs', 'detail': 'latexencode.unicode_to_latex(%r, protection=%r, policy=%r) after calls %r gives %r, an encoder object gives %r'
+                             % (s[:60], c['prot'], c['pol'], c.get('pre'), sh, text[:120])}, 'sig': 'shorthand'}
     w, kind, payload = parsecase.parse({'tol': False, 'ctx': 'default', 'ps': {}, 's': text})
     out = ' '.join(['ok'] + [show_str(x) for x in chunks]) + ' | ' + parsecase.show_result(kind, payload)
     # the exemption is for an *explicitly requested* scheme 'none' only: with the keyword left out the scheme is 'braces'
@@ -321,6 +350,15 @@ def cases(tier, rng):
         t_, p_, q_ = rng.choice(COMBOS)
         c = encp(s, t_, p_, rng.choice(['replace', 'ignore', 'unihex', 'fail', q_]))
         c['nao'] = True
+        yield c
+    # 0c. through the module-level shorthand after calls with other policies / flags (process-wide encoder cache)
+    PRE = [{'unknown_char_policy': 'keep'}, {'unknown_char_policy': 'replace'}, {'unknown_char_policy': 'fail'}, {'unknown_char_policy': 'unihex'},
+           {'non_ascii_only': True}, {'unknown_char_policy': 'ignore', 'non_ascii_only': True}]
+    for _ in range(500 if quick else 8000):
+        s = ''.join(rng.choice(ODD) if rng.random() < 0.5 else rng.choice(SYMS + ['\xe9', '\u4e7e']) for _ in range(rng.randint(1, 6)))
+        c = encp(s, 'defaults', rng.choice(PROTS), rng.choice(POLS))
+        c['via'] = 'shorthand'
+        c['pre'] = [dict(rng.choice(PRE)) for _ in range(rng.randint(1, 2))]
         yield c
     # 1. every ordering of the active characters with a letter, space, newline
     maxlen = 4 if quick else 5
